@@ -706,11 +706,7 @@ func setInlineKeep(prog *core.Program) {
 	if os.Getenv("PDFVERIF_NOINLINE") != "" {
 		return
 	}
-	keep := []string{}
-	for _, n := range anchorNames {
-		keep = append(keep, "."+n)
-	}
-	prog.InlineKeep = keep
+	prog.InlineKeep = append([]string{}, anchorNames...)
 }
 
 // vcase is one possible value of an expression at a vertex: the defining
